@@ -111,6 +111,29 @@ def own_store_out_of_date(has_store, is_source, mt, A, fresh):
     return mx > mt.t
 
 
+
+def registry_over(mapping, on_get=None):
+    """A registry for the units below: the REAL Registry class of the working tree (its read interface - get, `in`, [], keys/values/items, iteration,
+    len - is under contract in plumbing.Registry) over the given mapping node -> registry value; `on_get` logs look-ups made through get()."""
+    import importlib
+
+    from ujvc.z3env import ensure_repo_first
+
+    ensure_repo_first()
+    real = importlib.import_module("uberjob._registry").Registry
+
+    class Registry(real):
+        def __init__(self):
+            self.mapping = mapping
+
+        def get(self, n):
+            if on_get is not None:
+                on_get(n)
+            return real.get(self, n)
+
+    return Registry()
+
+
 def run_process(ctx):
     graph, util, errors, _graph = _real()
     import importlib
@@ -147,13 +170,8 @@ def run_process(ctx):
     class Mapping(dict):
         pass
 
-    class Registry:
-        mapping = {node: RVal} if reg_kind else {}
-
-        def get(self, n):
-            log.append(("registry.get", n))
-            v = self.mapping.get(n)
-            return v.value_store if v else None
+    def Registry():
+        return registry_over({node: RVal} if reg_kind else {}, on_get=lambda n: log.append(("registry.get", n)))
 
     stale_slot, m_slot = util.Slot(False), util.Slot()
     pred_stale_slot, pred_m_slot = util.Slot("PRED-STALE"), util.Slot("PRED-M")
@@ -304,9 +322,12 @@ def pwc_unit(ctx):
 
     vs = VS()
 
-    class Registry:
-        def get(self, n):
-            return vs if (has_store and n is node) else None
+    class _RV:
+        value_store = vs
+        is_source = False
+
+    def Registry():
+        return registry_over({node: _RV} if has_store else {})
 
     env = {"Call": graph.Call, "registry": Registry(), "progress_observer": tr, "process": process, "get_full_call_scope": _graph.get_full_call_scope,
            "fully_qualified_name": util.fully_qualified_name, "create_chained_call_error": errors.create_chained_call_error, "NodeError": errors.NodeError}
@@ -380,7 +401,11 @@ def get_stale_nodes_unit(ctx):
         log.append(("normalise", v))
         return FRESH_NORM if v is FRESH_RAW else v
 
-    MW, RETRY, OBS = object(), object(), object()
+    MW, OBS = object(), object()
+
+    def RETRY(f):      # a decorator (callable), identified by identity
+        return f
+
     stale_marks = {}
 
     def rfg(g, fn, *, worker_count=None, max_errors=0, scheduler=None):
@@ -444,9 +469,12 @@ def update_stale_totals_unit(ctx):
     k = ctx.choose(len(nodes) + 1, "n-nodes")
     nodes = nodes[:k]
 
-    class Registry:
-        def get(self, n):
-            return vs if n in stored else None
+    class _RV:
+        value_store = vs
+        is_source = False
+
+    def Registry():
+        return registry_over({n: _RV for n in stored})
 
     reg = Registry()
 
@@ -511,12 +539,8 @@ def run_process_bounded(ctx):
         value_store = store
         is_source = reg_kind == 2
 
-    class Registry:
-        mapping = {node: RVal} if reg_kind else {}
-
-        def get(self, n):
-            v = self.mapping.get(n)
-            return v.value_store if v else None
+    def Registry():
+        return registry_over({node: RVal} if reg_kind else {})
 
     class Gr:
         def predecessors(self, n):
